@@ -51,7 +51,7 @@ pub fn plans() -> Vec<Plan> {
             engine: "world",
             level: "exploration",
             quick_runs: 4000,
-            thorough_runs: 500_000,
+            thorough_runs: 400_000,
             rule: "one run = one world (multiset of generated declarations, valid or with one planted fault) realised in 10 (quick) / 24 (thorough) variants drawn from the scheduler's choices: declaration permutation x partition into <=3 files x argv list/directory/mixture x readdir permutation x hash seed (OS randomness) x entry point (cli::check / Project API), plus repeats that differ only in the hash seed. distinct = distinct trace JSON (by 64-bit hash); non-trivial = at least 2 variants of a non-empty world (so the metamorphic oracle compared something).",
             assumptions: &[
                 "the world generator's notion of 'declaration' (one top-level element per text block) is what C06 permutes",
@@ -90,7 +90,7 @@ pub fn plans() -> Vec<Plan> {
             engine: "world",
             level: "fault_enumeration",
             quick_runs: 1024 + 11_000,
-            thorough_runs: 1024 + 1_000_000,
+            thorough_runs: 1024 + 2_000_000,
             rule: "runs 0..1023 sweep every byte value 0x00-0xFF at four positions (inside a string literal, inside a comment, between tokens, inside an identifier) through check, tokenize, echo and the Project API (exhaustive part). The remaining runs draw a generated world decorated with non-ASCII characters in comments and string literals and either (3/5) store it three times under independently drawn encodings (UTF-8, UTF-8+BOM, UTF-16LE+BOM, UTF-16BE+BOM, Windows-1252) next to a plain UTF-8 reference (twin oracle: verdict, codes, line/column), or (2/5) corrupt the stored bytes of one file (bit flip, truncation anywhere / inside the BOM, garbage prefix/suffix, random binary, concurrent rewrite or truncation at an fs-point) and demand a Result with all labels inside the decoded text on char boundaries. distinct = distinct trace JSON; non-trivial = at least 2 executions.",
             assumptions: &[
                 "texts stored as Windows-1252 are restricted to its repertoire; the case where the Windows-1252 bytes are also valid UTF-8 is inherently ambiguous and skipped",
@@ -115,7 +115,7 @@ pub fn plans() -> Vec<Plan> {
             engine: "lsp",
             level: "exploration",
             quick_runs: 8420 + 2580,
-            thorough_runs: 168_420 + 431_580,
+            thorough_runs: 168_420 + 831_580,
             rule: "runs 0..8419 (quick) / 0..168419 (thorough) enumerate every notification sequence of length <=3 / <=4 over 2 URIs x 5 document classes (valid, lexical error, syntax error, semantic error, depends-on-other-document) x {didOpen, didChange}; the remaining runs are random histories of up to 40 events over 2-4 URIs and generated cross-referencing documents with crash/restart, duplicated delivery, 0/2-change didChange, stale versions and an optional workspace folder. After every didOpen/didChange step three oracles run: exactly one publishDiagnostics(uri, version); equality with a freshly started server (new OS randomness) that opens the current contents; containment equality with the real cli::check on a directory holding the same contents. distinct = distinct trace JSON; non-trivial = at least one edit event.",
             assumptions: &[
                 "documents are ASCII so that byte, char and UTF-16 columns coincide",
@@ -128,7 +128,7 @@ pub fn plans() -> Vec<Plan> {
             engine: "lsp",
             level: "exploration",
             quick_runs: 6000,
-            thorough_runs: 1_000_000,
+            thorough_runs: 1_500_000,
             rule: "one run = one editor session with semanticTokens/full requests interleaved in a random edit history (didOpen/didChange on 1-3 URIs, generated documents with random trivia: comments before tokens on the same line, multi-line comments, tabs, CRLF; crash/restart; never-opened and non-file URIs). Each response is decoded under the LSP relative encoding and compared with the lexemes of the document's *current* text and with the answer of a fresh server. distinct = distinct trace JSON; non-trivial = at least one request or edit.",
             assumptions: &[
                 "ironplc_parser::tokenize_program is trusted for lexeme boundaries of the current text (its correctness is C05, not claimed); only the LSP layer and the history are under test",
